@@ -4,6 +4,7 @@ import (
 	"encoding/json"
 	"fmt"
 	"os"
+	"regexp"
 	"sort"
 	"strings"
 
@@ -192,4 +193,11 @@ func firstDiff(a, b string) string {
 		return s[lo:hi]
 	}
 	return fmt.Sprintf("canonical …%q… vs …%q…", cut(a), cut(b))
+}
+
+var arenaNameRE = regexp.MustCompile(`verif-[0-9]+/w[0-9]+-[0-9]+|w[0-9]+-[0-9]+`)
+
+// canonArena removes per-task scratch directory names from a raw result.
+func canonArena(raw json.RawMessage) string {
+	return arenaNameRE.ReplaceAllString(string(raw), "<ARENA>")
 }
